@@ -355,11 +355,13 @@ class Node:
             if value_node.tag == 'tag:yaml.org,2002:null':
                 return default is None
 
-            if value_node.tag == 'tag:yaml.org,2002:int':
-                return int(value_node.value) == int(default)
-
-            if value_node.tag == 'tag:yaml.org,2002:float':
-                return float(value_node.value) == float(default)
+            if value_node.tag in (
+                    'tag:yaml.org,2002:int', 'tag:yaml.org,2002:float'):
+                if (
+                        isinstance(default, bool) or
+                        not isinstance(default, (int, float))):
+                    return False
+                return bool(Node(value_node).get_value() == default)
 
             if value_node.tag == 'tag:yaml.org,2002:bool':
                 if default is False:
